@@ -192,14 +192,37 @@ Fixpoint obs_part (p : prog) : bool :=
   | PIf _ t f => obs_part t && obs_part f
   end.
 
-(* the test can only hold when an output manager exists *)
-Fixpoint needs_manager (g : gexp) : bool :=
+(* propositional check of `g -> h` over all valuations of the 15 atoms (sound for every configuration and iteration) *)
+Definition atom_ix (g : gexp) : option nat :=
   match g with
-  | GL LHasManager => true
-  | GAnd a b => needs_manager a || needs_manager b
-  | GOr a b => needs_manager a && needs_manager b
-  | _ => false
+  | GA FSeedSet => Some 0 | GA FProgressBar => Some 1 | GA FRandomOrder => Some 2
+  | GL LHasManager => Some 3 | GL LHasCurrentIteration => Some 4 | GL LPathNone => Some 5
+  | GPerSet PerPrint => Some 6 | GPerSet PerSave => Some 7 | GPerSet PerPlot => Some 8 | GPerSet PerPlotPatients => Some 9
+  | GIterZero => Some 10
+  | GIterDiv PerPrint => Some 11 | GIterDiv PerSave => Some 12 | GIterDiv PerPlot => Some 13 | GIterDiv PerPlotPatients => Some 14
+  | _ => None
   end.
+Definition n_atoms := 15.
+
+Fixpoint gbits (v : list bool) (g : gexp) : bool :=
+  match g with
+  | GTrue => true
+  | GNot a => negb (gbits v a)
+  | GAnd a b => gbits v a && gbits v b
+  | GOr a b => gbits v a || gbits v b
+  | _ => match atom_ix g with Some n => nth n v false | None => false end
+  end.
+
+Fixpoint all_bits (n : nat) : list (list bool) :=
+  match n with
+  | O => [[]]
+  | S m => map (cons false) (all_bits m) ++ map (cons true) (all_bits m)
+  end.
+
+Definition gimplies (g h : gexp) : bool := forallb (fun v => implb (gbits v g) (gbits v h)) (all_bits n_atoms).
+
+(* the test can only hold when an output manager exists (decided propositionally: `g -> output_manager is not None`) *)
+Definition needs_manager (g : gexp) : bool := gimplies g (GL LHasManager).
 
 (* every observer call sits under `if self.output_manager is not None` *)
 Fixpoint managed (u : bool) (p : prog) : bool :=
@@ -286,35 +309,6 @@ Definition obs_guard (o : oname) : gexp :=
   | OPlotPatients => GAnd called (GAnd (GNot (GL LPathNone)) (periodic PerPlotPatients))
   | OPlotConvergence => GAnd called (GAnd (GNot (GL LPathNone)) (GAnd (GPerSet PerPlot) (GIterDiv PerPlot)))
   end.
-
-(* propositional check of `g -> h` over all valuations of the 15 atoms (sound for every configuration and iteration) *)
-Definition atom_ix (g : gexp) : option nat :=
-  match g with
-  | GA FSeedSet => Some 0 | GA FProgressBar => Some 1 | GA FRandomOrder => Some 2
-  | GL LHasManager => Some 3 | GL LHasCurrentIteration => Some 4 | GL LPathNone => Some 5
-  | GPerSet PerPrint => Some 6 | GPerSet PerSave => Some 7 | GPerSet PerPlot => Some 8 | GPerSet PerPlotPatients => Some 9
-  | GIterZero => Some 10
-  | GIterDiv PerPrint => Some 11 | GIterDiv PerSave => Some 12 | GIterDiv PerPlot => Some 13 | GIterDiv PerPlotPatients => Some 14
-  | _ => None
-  end.
-Definition n_atoms := 15.
-
-Fixpoint gbits (v : list bool) (g : gexp) : bool :=
-  match g with
-  | GTrue => true
-  | GNot a => negb (gbits v a)
-  | GAnd a b => gbits v a && gbits v b
-  | GOr a b => gbits v a || gbits v b
-  | _ => match atom_ix g with Some n => nth n v false | None => false end
-  end.
-
-Fixpoint all_bits (n : nat) : list (list bool) :=
-  match n with
-  | O => [[]]
-  | S m => map (cons false) (all_bits m) ++ map (cons true) (all_bits m)
-  end.
-
-Definition gimplies (g h : gexp) : bool := forallb (fun v => implb (gbits v g) (gbits v h)) (all_bits n_atoms).
 
 (* every observer call of the iteration body happens under (at least) the guard the property expects *)
 Definition guards_ok (p : prog) : bool :=
